@@ -87,7 +87,9 @@ func timeoutFor(tier string) int {
 	if tier == "thorough" {
 		return 60
 	}
-	return 10
+	// quick: most queries answer in milliseconds; the margin is for a loaded machine (a query that takes 8 s alone
+	// was seen to time out at 10 s while other checks were running)
+	return 25
 }
 
 func runCheck(prop, tier string, overlay map[string][]byte, mutantMode bool) (*CheckResult, error) {
